@@ -389,10 +389,11 @@ CHECKS = {
         pkg="./props/c17", bins=["./cmd/execworker"], level="fault_enumeration",
         rule=("rapid-generated plans executed against the real executor task code (executable.NewTask with recording status / device-event / "
               "message senders, as executor/handlers.go wires them), one worker process per plan. Task kind basic / hook / controllable "
-              "(direct); child behaviour: lives until told, or exits by itself after 50-1500 ms with code 0/1/3, ignores TERM/INT, forks 0-2 "
-              "children into its process group (which may ignore signals too); for controllable tasks a simulated OCC control plugin: port "
-              "opens after 0-1.5 s, ready after 0-1.5 s or starts in ERROR/DONE, reports its pid or not, each transition ok / refused / to "
-              "ERROR / hanging with 0-1.5 s delay, exits 0-2.5 s after DONE or never; request script: walks over the task state machine "
+              "(direct, or fairmq with the device speaking the FairMQ state machine); child behaviour: lives until told, or exits by itself "
+              "after 50-1500 ms with code 0/1/3, ignores TERM/INT, forks 0-2 children into its process group (which may ignore signals too), "
+              "optionally started under a named user; for controllable tasks a simulated OCC control plugin: port "
+              "opens after 0-1.5 s, ready after 0-1.5 s or starts in ERROR/DONE, reports its pid or not, each transition (each device step "
+              "for fairmq) ok / refused / to ERROR / hanging with 0-1.5 s delay, exits 0-2.5 s after DONE or never; request script: walks over the task state machine "
               "(CONFIGURE, START, STOP, RESET, repeated starts), hook triggers, a kill at a drawn instant (0-1.2 s after the previous "
               "request; requests after a terminal status are not delivered, as in the executor). Oracle over the recorded history: (1) at "
               "most one terminal status and nothing after it; (2) a task alive and ready when killed is not reported TASK_FAILED, a basic "
